@@ -23,6 +23,8 @@ structure MSet where
 structure St where
   sets : List (String × MSet) := []
   dead : Bool := false
+  /-- wrapper protocol in force (only used to name the call site in a rejection) -/
+  snap : Bool := liveSnapshot
 
 def St.get (st : St) (x : String) : Option MSet := st.sets.lookup x
 def St.put (st : St) (x : String) (m : MSet) : St :=
@@ -108,7 +110,8 @@ def step (st : St) (ts : List String) : St × String :=
   if st.dead then (if op == ["reset"] then ({}, "ok") else if out == ["skipped"] then (st, "ok") else (st, "reject bad-output after panic")) else
   match op with
   | ["reset"] => ({}, if out == ["ok"] then "ok" else "reject bad-output")
-  | ["mode", _] => (st, if out == ["ok"] then "ok" else "reject bad-output")
+  | ["mode", m] => ((if m == "snapshot" then { st with snap := true } else if m == "nosnapshot" then { st with snap := false } else st),
+      if out == ["ok"] then "ok" else "reject bad-output")
   | ["new", x, k] => match parseKind k, out with
     | some (w, wr), ["ok"] => (st.put x { width := w, wrapped := wr }, "ok")
     | _, _ => (st, "reject bad-op")
@@ -162,17 +165,42 @@ def step (st : St) (ts : List String) : St × String :=
     -- receiver must at least stay what it was
     | some op => judgeMut st x (opName op ++ ":non-duplex-operand") id out
     | none => (st, "reject bad-op")
-  | ["abba", _, x, y, _] => match st.get x, st.get y, out with
-    | some a, some b, ["deadlock"] =>
+  | ["abba", o, x, y, _] => match parseOp o, st.get x, st.get y, out with
+    | some _, some a, some b, ["deadlock"] =>
       ((st.put x { a with dead := true }).put y { b with dead := true },
         s!"reject threadSafeDuplex:abba-deadlock {x}.op({y}) ∥ {y}.op({x}): both goroutines parked in sync.Mutex.Lock")
-    | some a, some b, ["ok"] => ((st.put x { a with unknown := true }).put y { b with unknown := true }, "ok")
-    | _, _, _ => (st, "reject bad-op")
+    | some op, some a, some b, ["ok", c1, r1, "|", c2, r2] =>
+      -- And / Or: whatever the interleaving, both end as the intersection / union
+      let e := Spec.binop op a.ideal b.ideal
+      match judgeObs st x a e "threadSafeDuplex:concurrent-use" c1 r1 with
+      | (st1, some msg) => (st1, msg)
+      | (st1, none) => match judgeObs st1 y b e "threadSafeDuplex:concurrent-use" c2 r2 with
+        | (st2, some msg) => (st2, msg)
+        | (st2, none) => (st2, "ok")
+    | _, some _, some _, "panic" :: rest => ({ st with dead := true }, "reject threadSafeDuplex:concurrent-use panic " ++ " ".intercalate rest)
+    | _, some _, some _, _ => (st, "reject threadSafeDuplex:concurrent-use bad-output " ++ " ".intercalate out)
+    | _, _, _, _ => (st, "reject bad-op")
+  | ["pairs", x, y, lo, n] => match st.get x, st.get y, lo.toNat?, n.toNat?, out with
+    | some p, some q, some lo, some n, ["ok", torn, c1, r1, "|", c2, r2] =>
+      if torn != "torn=0" then
+        (st, s!"reject threadSafeDuplex:torn-operand-read {x}.Or({y}) saw exactly one element of a pair that {y}.Add(2k,2k+1) inserts under {y}'s lock: {torn}")
+      else
+        let o' := union q.ideal (rangeList lo 1 (2 * n))
+        match judgeObs st x p (union p.ideal o') "threadSafeDuplex:concurrent-use" c1 r1 with
+        | (st1, some msg) => (st1, msg)
+        | (st1, none) => match judgeObs st1 y q o' "threadSafeDuplex:concurrent-use" c2 r2 with
+          | (st2, some msg) => (st2, msg)
+          | (st2, none) => (st2, "ok")
+    | some _, some _, some _, some _, "panic" :: rest =>
+      ({ st with dead := true }, s!"reject threadSafeDuplex:torn-operand-read {x}.Or({y}) panicked while {y} was being written under its lock: " ++ " ".intercalate rest)
+    | some _, some _, some _, some _, ["deadlock"] => (st, s!"reject threadSafeDuplex:unexpected-deadlock pairs")
+    | some _, some _, some _, some _, _ => (st, "reject threadSafeDuplex:concurrent-use bad-output " ++ " ".intercalate out)
+    | _, _, _, _, _ => (st, "reject bad-op")
   | "conc" :: x :: toks => match st.get x, out with
     | some m, ["ok", card, r, cadd] =>
       -- any sequential order: the generator only emits order-independent mixes; operands by plain set algebra
       let lookup := fun y => (st.get y).map (fun q => ({ width := q.width, wrapped := false, set := q.ideal } : Prov))
-      match concRun lookup x m.width true m.ideal toks with
+      match concRun lookup x m.width true true m.ideal toks with
       | some (s', n) =>
         match judgeObs st x m s' "threadSafeDuplex:concurrent-use" card r with
         | (st', some msg) => (st', msg)
@@ -180,13 +208,15 @@ def step (st : St) (ts : List String) : St × String :=
           if cadd == s!"cadd={n}" then (st', "ok")
           else (st', s!"reject threadSafeDuplex:concurrent-use CheckedAdd-true-count expected={n} got={cadd}")
       | none => (st, "reject bad-op")
+    | some _, "panic" :: rest => ({ st with dead := true }, "reject threadSafeDuplex:concurrent-use panic " ++ " ".intercalate rest)
     | some _, _ => (st, "reject threadSafeDuplex:concurrent-use bad-output " ++ " ".intercalate out)
     | _, _ => (st, "reject bad-op")
   | [o, x, y] => match parseOp o, st.get x, st.get y with
     | some op, some p, some q =>
       if p.width != q.width then (st, "reject bad-op") else
       let self := x == y
-      let path := if (if self then p.wrapped else q.wrapped) then "fallback-operand" else "native"
+      let operandWrapped := if self then p.wrapped else q.wrapped
+      let path := if operandWrapped then (if p.wrapped && st.snap then "snapshot-operand" else "fallback-operand") else "native"
       let label := s!"bitmap{wname p.width}.{opName op}:{path}"
       match out with
       | ["deadlock"] =>
